@@ -22,10 +22,11 @@ Definition noz (s : xs) : Prop := forall x, In x (xjobs s) -> xph x <> XZombie.
 Lemma noz_step pop W s e : noz s -> noz (xstep pop W false s e).
 Proof.
   intros H. unfold xstep. destruct (xerr s); [exact H|]. destruct (negb (xenabled s e)); [exact H|].
-  destruct e as [k|j|j|j|j| |j]; unfold noz, xreturn; cbn [xjobs].
+  destruct e as [k|j|j|j|j|j| |j]; unfold noz, xreturn; cbn [xjobs].
   - intros x Hx. apply in_app_or in Hx as [Hx|Hx]; [apply H, Hx|]. apply repeat_spec in Hx. subst. cbn. congruence.
   - destruct (length (xqueue s) <? pop); cbn [xjobs]; [exact H|]. intros x Hx. apply in_setn in Hx as [->|Hx]; [cbn; congruence| apply H, Hx].
   - intros x Hx. apply in_setn in Hx as [->|Hx]; [cbn; congruence| apply H, Hx].
+  - destruct (xbusy s <? W); cbn [xjobs]; [|exact H]. intros x Hx. apply in_setn in Hx as [->|Hx]; [cbn; congruence| apply H, Hx].
   - intros x Hx. apply in_setn in Hx as [->|Hx]; [cbn; congruence| apply H, Hx].
   - intros x Hx. apply in_setn in Hx as [->|Hx]; [cbn; congruence| apply H, Hx].
   - intros x Hx. apply in_map_iff in Hx as (y & <- & Hy). specialize (H y Hy). unfold xcancel. destruct (xph y) eqn:E; cbn; congruence.
@@ -47,7 +48,7 @@ Qed.
 (* thread backend: close() while a run-function is executing, then the evaluator is used again: the resource of the
    cancelled job is handed to a new job while the old thread still executes with it (F52) *)
 Theorem zombie_shares_refuted :
-  let s := xrun 1 2 true (xinit 1 [100]%Z) [XSubmit 1; XTake 0; XRun 0; XClose; XSubmit 1; XTake 1; XRun 1] in
+  let s := xrun 1 2 true (xinit 1 [100]%Z) [XSubmit 1; XTake 0; XRun 0; XStart 0; XClose; XSubmit 1; XTake 1; XRun 1; XStart 1] in
   xerr s = false /\ map xph (xjobs s) = [XZombie; XRunning] /\ xexec (xget s 0) = [100]%Z /\ xexec (xget s 1) = [100]%Z.
 Proof. vm_compute. auto. Qed.
 
@@ -61,6 +62,43 @@ Theorem worker_bound_across_submits_refuted :
   map xph (xjobs s) = [XRunning; XRunning] /\ map xres (xjobs s) = [[1]; [2]]%Z.
 Proof. vm_compute. auto. Qed.
 
+(* thread backend: the pool bounds the run-functions that execute, zombies included, also across submits *)
+Lemma lsum_ext {A} (f g : A -> nat) l : (forall x, In x l -> f x = g x) -> lsum f l = lsum g l.
+Proof. unfold lsum. induction l as [|a l IH]; intros H; cbn; [reflexivity|]. rewrite (H a (or_introl eq_refl)), IH; [reflexivity|]. intros x Hx. apply H. right. exact Hx. Qed.
+
+Lemma pool_step pop W s e : xbusy s <= W -> xbusy (xstep pop W true s e) <= W.
+Proof.
+  intros H. unfold xstep. destruct (xerr s); [exact H|]. destruct (xenabled s e) eqn:En; cbn [negb]; [|exact H].
+  rewrite !xbusy_lsum in *. destruct e as [k|j|j|j|j|j| |j]; unfold xreturn; cbn [xjobs].
+  - rewrite lsum_app, (lsum_zero ibusy (repeat _ k)); [lia|]. intros x Hx. apply repeat_spec in Hx. subst. reflexivity.
+  - destruct (xenabled_take _ _ En) as (Hj & Hph & _). destruct (length (xqueue s) <? pop); cbn [xjobs]; [exact H|].
+    pose proof (lsum_setn ibusy xdflt (xjobs s) j (mkXJob XHolding (firstn pop (xqueue s)) (length (xsems s) - 1)) Hj) as P.
+    fold (xget s j) in P. unfold ibusy at 1 3 in P. rewrite Hph in P. cbn in P. unfold lsum in *. lia.
+  - destruct (xenabled_run _ _ En) as (Hj & Hph & _).
+    pose proof (lsum_setn ibusy xdflt (xjobs s) j (mkXJob XQueued (xres (xget s j)) (xgen (xget s j))) Hj) as P.
+    fold (xget s j) in P. unfold ibusy at 1 3 in P. rewrite Hph in P. cbn in P. unfold lsum in *. lia.
+  - destruct (xenabled_start _ _ En) as (Hj & Hph). destruct (lsum ibusy (xjobs s) <? W) eqn:EB; cbn [xjobs]; [|exact H].
+    apply Nat.ltb_lt in EB.
+    pose proof (lsum_setn ibusy xdflt (xjobs s) j (mkXJob XRunning (xres (xget s j)) (xgen (xget s j))) Hj) as P.
+    fold (xget s j) in P. unfold ibusy at 1 3 in P. rewrite Hph in P. cbn in P. unfold lsum in *. lia.
+  - destruct (xenabled_finish _ _ En) as (Hj & Hph).
+    pose proof (lsum_setn ibusy xdflt (xjobs s) j (mkXJob XDone (xres (xget s j)) (xgen (xget s j))) Hj) as P.
+    fold (xget s j) in P. unfold ibusy at 1 3 in P. rewrite Hph in P. cbn in P. unfold lsum in *. lia.
+  - destruct (xenabled_finish _ _ En) as (Hj & Hph).
+    pose proof (lsum_setn ibusy xdflt (xjobs s) j (mkXJob XFailed (xres (xget s j)) (xgen (xget s j))) Hj) as P.
+    fold (xget s j) in P. unfold ibusy at 1 3 in P. rewrite Hph in P. cbn in P. unfold lsum in *. lia.
+  - rewrite lsum_map. rewrite (lsum_ext _ ibusy); [exact H|]. intros x _. unfold xcancel, ibusy. destruct (xph x) eqn:E; cbn; rewrite ?E; reflexivity.
+  - destruct (xenabled_zombie _ _ En) as (Hj & Hph).
+    pose proof (lsum_setn ibusy xdflt (xjobs s) j (mkXJob XCancelled (xres (xget s j)) (xgen (xget s j))) Hj) as P.
+    fold (xget s j) in P. unfold ibusy at 1 3 in P. rewrite Hph in P. cbn in P. unfold lsum in *. lia.
+Qed.
+
+Theorem pool_bound pop W q0 sched : xbusy (xrun pop W true (xinit pop q0) sched) <= W.
+Proof.
+  assert (H0 : xbusy (xinit pop q0) <= W) by (cbn; lia). revert H0. generalize (xinit pop q0). unfold xrun.
+  induction sched as [|e t IH]; intros s H; cbn [fold_left]; [exact H| apply IH, pool_step, H].
+Qed.
+
 (* ---------- progress ---------- *)
 Lemma existsb_seq_false (f : nat -> bool) n : existsb f (seq 0 n) = false -> forall j, j < n -> f j = false.
 Proof.
@@ -68,34 +106,49 @@ Proof.
   apply existsb_exists. exists j. split; [apply in_seq; lia| exact E].
 Qed.
 
+Ltac pick_enabled j n :=
+  apply (existsb_seq_intro _ _ j); [lia|]; cbn [xenabled]; fold n; replace (j <? n) with true by (symmetry; apply Nat.ltb_lt; lia).
+
 Theorem xprogress q0 pop W s : XInv q0 pop W s -> 1 <= pop -> pop <= length q0 -> 1 <= W ->
-  existsb xunfinished (xjobs s) = true -> xsome_enabled s = true.
+  existsb xunfinished (xjobs s) = true -> xsome_enabled W s = true.
 Proof.
   intros H Hp1 Hp2 HW Hun. unfold xsome_enabled. set (n := length (xjobs s)).
+  assert (Hin : forall x, In x (xjobs s) -> exists j, j < n /\ xget s j = x).
+  { intros x Hx. apply (In_nth _ _ xdflt) in Hx as (j & Hj & Ex). exists j. split; assumption. }
   destruct (existsb (fun j => match xph (xget s j) with XRunning => true | _ => false end) (seq 0 n)) eqn:ER.
-  { apply existsb_exists in ER as [j [Hj Ej]]. apply in_seq in Hj. apply (existsb_seq_intro _ _ j); [lia|].
-    cbn [xenabled]. fold n. replace (j <? n) with true by (symmetry; apply Nat.ltb_lt; lia). apply orb_true_iff. right. rewrite Ej. reflexivity. }
+  { apply existsb_exists in ER as [j [Hj Ej]]. apply in_seq in Hj. pick_enabled j n.
+    destruct (xph (xget s j)); try discriminate. cbn. rewrite ?orb_true_r. reflexivity. }
   pose proof (existsb_seq_false _ _ ER) as NoRun.
-  assert (NoRun' : forall x, In x (xjobs s) -> xph x <> XRunning).
-  { intros x Hx E. apply (In_nth _ _ xdflt) in Hx as (j & Hj & Ex). specialize (NoRun j Hj). unfold xget in NoRun. rewrite Ex, E in NoRun. discriminate. }
+  destruct (existsb (fun j => match xph (xget s j) with XZombie => true | _ => false end) (seq 0 n)) eqn:EZ.
+  { apply existsb_exists in EZ as [j [Hj Ej]]. apply in_seq in Hj. pick_enabled j n.
+    destruct (xph (xget s j)); try discriminate. cbn. rewrite ?orb_true_r. reflexivity. }
+  pose proof (existsb_seq_false _ _ EZ) as NoZ.
+  assert (Hb : xbusy s = 0).
+  { rewrite xbusy_lsum. apply lsum_zero. intros x Hx. destruct (Hin x Hx) as (j & Hj & <-). specialize (NoRun j Hj). specialize (NoZ j Hj). cbn beta in *.
+    unfold ibusy. destruct (xph (xget s j)); try reflexivity; congruence. }
+  destruct (existsb (fun j => match xph (xget s j) with XQueued => true | _ => false end) (seq 0 n)) eqn:EQ.
+  { apply existsb_exists in EQ as [j [Hj Ej]]. apply in_seq in Hj. pick_enabled j n.
+    destruct (xph (xget s j)); try discriminate. rewrite Hb. replace (0 <? W) with true by (symmetry; apply Nat.ltb_lt; lia). cbn. rewrite ?orb_true_r. reflexivity. }
+  pose proof (existsb_seq_false _ _ EQ) as NoQ.
+  assert (Hr0 : forall g, xnrun s g = 0).
+  { intros g. unfold xnrun. apply lsum_zero. intros x Hx. destruct (Hin x Hx) as (j & Hj & <-). specialize (NoRun j Hj). specialize (NoQ j Hj). cbn beta in *.
+    unfold irun. destruct (xph (xget s j)); try reflexivity; congruence. }
   destruct (existsb (fun j => match xph (xget s j) with XHolding => true | _ => false end) (seq 0 n)) eqn:EH.
-  { apply existsb_exists in EH as [j [Hj Ej]]. apply in_seq in Hj. apply (existsb_seq_intro _ _ j); [lia|].
-    cbn [xenabled]. fold n. replace (j <? n) with true by (symmetry; apply Nat.ltb_lt; lia).
+  { apply existsb_exists in EH as [j [Hj Ej]]. apply in_seq in Hj. pick_enabled j n.
     destruct (xph (xget s j)) eqn:Eph; try discriminate.
     assert (Hg : xgen (xget s j) < length (xsems s)).
     { apply (x_gen _ _ _ _ H); [apply nth_In; fold n; lia| unfold ihold; rewrite Eph; lia]. }
-    pose proof (x_sem _ _ _ _ H _ Hg) as Hs. unfold xnrun in Hs. rewrite lsum_zero in Hs by (intros x Hx; apply irun_other, NoRun', Hx).
-    replace (0 <? nth (xgen (xget s j)) (xsems s) 0) with true by (symmetry; apply Nat.ltb_lt; lia). apply orb_true_iff. left. apply orb_true_iff. right. reflexivity. }
+    pose proof (x_sem _ _ _ _ H _ Hg) as Hs. rewrite Hr0 in Hs.
+    replace (0 <? nth (xgen (xget s j)) (xsems s) 0) with true by (symmetry; apply Nat.ltb_lt; lia). cbn. rewrite ?orb_true_r. reflexivity. }
   pose proof (existsb_seq_false _ _ EH) as NoHold.
   assert (Hnh : xnhold s = 0).
-  { unfold xnhold. apply lsum_zero. intros x Hx. pose proof (NoRun' x Hx) as R. apply (In_nth _ _ xdflt) in Hx as (j & Hj & Ex).
-    specialize (NoHold j Hj). unfold xget in NoHold. rewrite Ex in NoHold. unfold ihold. destruct (xph x); try reflexivity; congruence. }
+  { unfold xnhold. apply lsum_zero. intros x Hx. destruct (Hin x Hx) as (j & Hj & <-).
+    specialize (NoRun j Hj). specialize (NoQ j Hj). specialize (NoHold j Hj). cbn beta in *. unfold ihold. destruct (xph (xget s j)); try reflexivity; congruence. }
   pose proof (x_perm _ _ _ _ H) as Hperm. rewrite Hnh in Hperm.
   assert (0 < length q0 / pop) by (apply Nat.div_str_pos; lia).
-  apply existsb_exists in Hun as (x & Hx & Ux). pose proof (NoRun' x Hx) as R. apply (In_nth _ _ xdflt) in Hx as (j & Hj & Ex).
-  apply (existsb_seq_intro _ _ j); [exact Hj|]. cbn [xenabled]. fold n. replace (j <? n) with true by (symmetry; apply Nat.ltb_lt; lia).
-  specialize (NoHold j Hj). unfold xget in *. rewrite Ex in *. unfold xunfinished in Ux.
-  destruct (xph x); try discriminate; try congruence.
+  apply existsb_exists in Hun as (x & Hx & Ux). destruct (Hin x Hx) as (j & Hj & <-).
+  specialize (NoRun j Hj). specialize (NoQ j Hj). specialize (NoHold j Hj). cbn beta in *. pick_enabled j n. unfold xunfinished in Ux.
+  destruct (xph (xget s j)); try discriminate.
   replace (0 <? xperm s) with true by (symmetry; apply Nat.ltb_lt; lia). reflexivity.
 Qed.
 
@@ -109,16 +162,18 @@ Proof.
   destruct (xenabled s e) eqn:En; cbn [negb]; [|repeat split; assumption].
   assert (Hph : forall j, j < length (xjobs s) -> xph (xget s j) = XWaiting \/ xph (xget s j) = XCancelled).
   { intros j Hjl. apply Hj. apply nth_In. exact Hjl. }
-  destruct e as [k|j|j|j|j| |j].
+  destruct e as [k|j|j|j|j|j| |j].
   - repeat split; cbn [xqueue xperm xjobs]; try assumption. intros x Hx. apply in_app_or in Hx as [Hx|Hx]; [apply Hj, Hx|].
     apply repeat_spec in Hx. subst. left. reflexivity.
   - destruct (xenabled_take _ _ En) as (_ & _ & X). lia.
   - destruct (xenabled_run _ _ En) as (L & X & _). destruct (Hph j L); congruence.
+  - destruct (xenabled_start _ _ En) as (L & X). destruct (Hph j L); congruence.
   - destruct (xenabled_finish _ _ En) as (L & X). destruct (Hph j L); congruence.
   - destruct (xenabled_finish _ _ En) as (L & X). destruct (Hph j L); congruence.
   - assert (Hh : xheld s = []).
     { unfold xheld. apply flat_map_nil. intros x Hx. unfold xholds. destruct (Hj x Hx) as [E|E]; rewrite E; reflexivity. }
-    rewrite Hh, app_nil_r. repeat split; cbn [xqueue xperm xjobs].
+    assert (Hr : xreturned thr s = []) by (apply Permutation_nil; rewrite <- Hh; apply Permutation_sym, xreturned_perm).
+    rewrite Hr, app_nil_r. repeat split; cbn [xqueue xperm xjobs].
     + exact Hq.
     + rewrite Hq. apply Nat.div_small. exact Hlt.
     + intros x Hx. apply in_map_iff in Hx as (y & <- & Hy). unfold xcancel. destruct (Hj y Hy) as [E|E]; rewrite E; cbn; auto.
@@ -148,8 +203,8 @@ Proof. induction l as [|a l IH]; intros [|j] y; cbn; try reflexivity. rewrite IH
 Lemma getj_proj s j : getj (proj s) j = projjob (xget s j).
 Proof. unfold getj, proj, xget. cbn [jobs]. change (mkJob Finished []) with (projjob xdflt). apply map_nth. Qed.
 
-Lemma refine_step q0 pop W thr s e : XInv q0 pop W s -> length (xsems s) = 1 -> 1 <= pop ->
-  proj (xstep pop W thr s (emb e)) = qstep pop (proj s) e /\ length (xsems (xstep pop W thr s (emb e))) = 1.
+Lemma refine_step q0 pop W s e : XInv q0 pop W s -> length (xsems s) = 1 -> 1 <= pop ->
+  proj (xstep pop W false s (emb e)) = qstep pop (proj s) e /\ length (xsems (xstep pop W false s (emb e))) = 1.
 Proof.
   intros H Hs1 Hp. unfold xstep, qstep. rewrite (x_err _ _ _ _ H).
   assert (Hlen : length (jobs (proj s)) = length (xjobs s)) by (cbn; apply map_length).
@@ -187,16 +242,16 @@ Proof.
     rewrite map_setn_setj. rewrite nth_setn by lia. cbn [Nat.eqb projjob res xph xres]. reflexivity.
 Qed.
 
-Theorem refine_run q0 pop W thr : 1 <= pop -> forall sched s, XInv q0 pop W s -> length (xsems s) = 1 ->
-  proj (xrun pop W thr s (map emb sched)) = qrun pop (proj s) sched.
+Theorem refine_run q0 pop W : 1 <= pop -> forall sched s, XInv q0 pop W s -> length (xsems s) = 1 ->
+  proj (xrun pop W false s (map emb sched)) = qrun pop (proj s) sched.
 Proof.
   intros Hp. unfold xrun, qrun. induction sched as [|e t IH]; intros s H Hs; cbn [map fold_left]; [reflexivity|].
-  destruct (refine_step q0 pop W thr s e H Hs Hp) as (E & L). rewrite <- E. apply IH; [apply xinv_step, H| exact L].
+  destruct (refine_step q0 pop W s e H Hs Hp) as (E & L). rewrite <- E. apply IH; [apply xinv_step, H| exact L].
 Qed.
 
-Theorem ext_refines_mechanism q0 pop W thr n sched : 1 <= pop ->
-  proj (xrun pop W thr (xstep pop W thr (xinit pop q0) (XSubmit n)) (map emb sched)) = qrun pop (qinit q0 n W) sched.
+Theorem ext_refines_mechanism q0 pop W n sched : 1 <= pop ->
+  proj (xrun pop W false (xstep pop W false (xinit pop q0) (XSubmit n)) (map emb sched)) = qrun pop (qinit q0 n W) sched.
 Proof.
-  intros Hp. rewrite (refine_run q0 pop W thr Hp); [|apply xinv_step, xinv_init| reflexivity].
+  intros Hp. rewrite (refine_run q0 pop W Hp); [|apply xinv_step, xinv_init| reflexivity].
   f_equal. unfold proj, qinit. cbn. f_equal. induction n as [|n IH]; cbn; [reflexivity| rewrite IH; reflexivity].
 Qed.
